@@ -890,6 +890,16 @@ func shapeOfKind(kind string) interface{} {
 		return map[float64]error{2.5: nil, 1.5: errors.New("e")}
 	case "intifacemap":
 		return map[int]interface{}{1: 2, 4: "four"}
+	case "rows2d": // typed lists whose elements are themselves lists, maps, structs with slices
+		return [][]string{{"a", "b"}, {"c"}}
+	case "grid2d":
+		return [][]interface{}{{1, 2}, {3}}
+	case "maps1d":
+		return []map[string]int{{"a": 1}, {"b": 2}}
+	case "structs1d":
+		return []tagKey{{N: 1, Tag: []int{1}}, {N: 2, Tag: "t"}}
+	case "arrs2d":
+		return [2][]int{{1, 2}, {3}}
 	case "nilifaceptr": // a pointer to an interface value that is nil
 		var st fmt.Stringer
 		return &st
